@@ -100,6 +100,9 @@ def main(tier, seed):
     rep = Report(PROP, tier, seed, "model_checking")
     rng = random.Random(seed)
     bins = [("dev", vlib.build_harness("dev")), ("release", vlib.build_harness("release"))]
+    # what is pending belongs to the fiber: two fibers fail inside try / finally and give control away from the finally block; the one that
+    # is resumed reports (or hands to its caller) ITS failure, at its own line
+    profcheck.run_scenarios(rep, "interleaved", scenarios.interleaved_failure_scenarios(("uncaught", "caught-by-caller")), bins, PROP)
     progs = scenarios.error_scenarios(rng, 2000 if tier == "quick" else 30000)
     profcheck.run_scenarios(rep, "errors", progs, bins, PROP)
     # the same errors as the shipped command-line program reports them: messages on stderr, exit status 65 / 70 / 0
